@@ -1,8 +1,548 @@
-(* C05 -- proofs about the Kekule / Thiele specification and the classifier (see model/Kekule.v). *)
+(* C05 -- proofs about the Kekule / Thiele specification (model/Kekule.v): what every output accepted by the checkers
+   kekule_rel / thiele_rel satisfies, idempotence at the level of the specification and of the driver model, what the
+   driver model can never change whatever the (unmodelled, heuristic) search returns. *)
 From Coq Require Import ZArith List Bool Lia.
 From Model Require Import PyBase Graph Kekule.
 Import ListNotations.
 Open Scope Z_scope.
 
+(* ------------------------------------------------------------------------------------------------
+   generic list facts
+   ------------------------------------------------------------------------------------------------ *)
+Lemma forallb2_map {A B C : Type} (f : A -> B -> bool) (p : A -> C) (q : B -> C) :
+  (forall x y, f x y = true -> p x = q y) ->
+  forall l l', forallb2 f l l' = true -> map p l = map q l'.
+Proof.
+  intros H l. induction l as [|x r IH]; intros [|y s] E; simpl in *; try discriminate; auto.
+  apply andb_true_iff in E. destruct E as [E1 E2]. f_equal; auto.
+Qed.
+
+Lemma forallb2_weaken {A B : Type} (f g : A -> B -> bool) :
+  (forall x y, f x y = true -> g x y = true) ->
+  forall l l', forallb2 f l l' = true -> forallb2 g l l' = true.
+Proof.
+  intros H l. induction l as [|x r IH]; intros [|y s] E; simpl in *; try discriminate; auto.
+  apply andb_true_iff in E. destruct E as [E1 E2]. rewrite (H _ _ E1), (IH _ E2). reflexivity.
+Qed.
+
+Lemma forallb2_swap {A B : Type} (f : A -> B -> bool) (g : B -> A -> bool) :
+  (forall x y, f x y = true -> g y x = true) ->
+  forall l l', forallb2 f l l' = true -> forallb2 g l' l = true.
+Proof.
+  intros H l. induction l as [|x r IH]; intros [|y s] E; simpl in *; try discriminate; auto.
+  apply andb_true_iff in E. destruct E as [E1 E2]. rewrite (H _ _ E1), (IH _ E2). reflexivity.
+Qed.
+
+Lemma forallb2_and {A B : Type} (f g : A -> B -> bool) :
+  forall l l', forallb2 f l l' = true -> forallb2 g l l' = true -> forallb2 (fun x y => f x y && g x y) l l' = true.
+Proof.
+  intros l. induction l as [|x r IH]; intros [|y s] E1 E2; simpl in *; try discriminate; auto.
+  apply andb_true_iff in E1. apply andb_true_iff in E2. destruct E1 as [a b], E2 as [c d].
+  rewrite a, c, (IH _ b d). reflexivity.
+Qed.
+
+Lemma forallb2_forallb_r {A B : Type} (f : A -> B -> bool) (p : B -> bool) :
+  (forall x y, f x y = true -> p y = true) ->
+  forall l l', forallb2 f l l' = true -> forallb p l' = true.
+Proof.
+  intros H l. induction l as [|x r IH]; intros [|y s] E; simpl in *; try discriminate; auto.
+  apply andb_true_iff in E. destruct E as [E1 E2]. rewrite (H _ _ E1), (IH _ E2). reflexivity.
+Qed.
+
+(* forallb2 with a side condition known for every element of the left list *)
+Lemma forallb2_with_forallb {A B : Type} (f g : A -> B -> bool) (p : A -> bool) :
+  (forall x y, p x = true -> f x y = true -> g x y = true) ->
+  forall l l', forallb p l = true -> forallb2 f l l' = true -> forallb2 g l l' = true.
+Proof.
+  intros H l. induction l as [|x r IH]; intros [|y s] P E; simpl in *; try discriminate; auto.
+  apply andb_true_iff in E. apply andb_true_iff in P. destruct E as [E1 E2], P as [P1 P2].
+  rewrite (H _ _ P1 E1), (IH _ P2 E2). reflexivity.
+Qed.
+
+Lemma forallb2_refl {A : Type} (f : A -> A -> bool) (p : A -> bool) :
+  (forall x, p x = true -> f x x = true) -> forall l, forallb p l = true -> forallb2 f l l = true.
+Proof.
+  intros H l. induction l as [|x r IH]; intros P; simpl in *; auto.
+  apply andb_true_iff in P. destruct P as [P1 P2]. rewrite (H _ P1), (IH P2). reflexivity.
+Qed.
+
+Lemma forallb_true {A : Type} (l : list A) : forallb (fun _ => true) l = true.
+Proof. induction l; simpl; auto. Qed.
+
+Lemma map_fold_sum {A B : Type} (p : A -> Z) (q : B -> Z) :
+  forall l l', map p l = map q l' ->
+  fold_right (fun x s => p x + s) 0 l = fold_right (fun y s => q y + s) 0 l'.
+Proof.
+  intros l. induction l as [|x r IH]; intros [|y s] E; simpl in *; try discriminate; auto.
+  injection E as E1 E2. rewrite E1, (IH _ E2). reflexivity.
+Qed.
+
+Lemma map_countb {A B : Type} (p : A -> bool) (q : B -> bool) :
+  forall l l', map p l = map q l' -> countb p l = countb q l'.
+Proof.
+  intros l. induction l as [|x r IH]; intros [|y s] E; simpl in *; try discriminate; auto.
+  injection E as E1 E2. rewrite E1, (IH _ E2). reflexivity.
+Qed.
+
+Lemma countb_nonneg {A : Type} (f : A -> bool) (l : list A) : 0 <= countb f l.
+Proof. induction l as [|x r IH]; simpl; [lia | destruct (f x); lia]. Qed.
+
+Lemma countb_zero {A : Type} (f : A -> bool) (l : list A) : countb f l = 0 <-> forallb (fun x => negb (f x)) l = true.
+Proof.
+  induction l as [|x r IH]; simpl; [tauto|].
+  pose proof (countb_nonneg f r). destruct (f x); simpl.
+  - split; [lia | discriminate].
+  - rewrite <- IH. split; lia.
+Qed.
+
+Lemma option_eqb_Z_eq (a b : option Z) : option_eqb Z.eqb a b = true -> a = b.
+Proof. destruct a, b; simpl; try discriminate; auto. intros E. apply Z.eqb_eq in E. subst. reflexivity. Qed.
+
+Lemma option_eqb_bool_eq (a b : option bool) : option_eqb Bool.eqb a b = true -> a = b.
+Proof. destruct a, b; simpl; try discriminate; auto. intros E. apply eqb_prop in E. subst. reflexivity. Qed.
+
+Lemma option_eqb_Z_refl (a : option Z) : option_eqb Z.eqb a a = true.
+Proof. destruct a; simpl; auto. apply Z.eqb_refl. Qed.
+
+Lemma option_eqb_bool_refl (a : option bool) : option_eqb Bool.eqb a a = true.
+Proof. destruct a; simpl; auto. apply eqb_reflx. Qed.
+
+(* ------------------------------------------------------------------------------------------------
+   1. kekule_rel preserves the molecule
+   ------------------------------------------------------------------------------------------------ *)
+Definition core4 (a : atom) : Z * option Z * Z * bool := (a_num a, a_iso a, a_chg a, a_rad a).
+
+Lemma atom_core_eqb_eq a b : atom_core_eqb a b = true -> core4 a = core4 b.
+Proof.
+  unfold atom_core_eqb, core4. intros E.
+  apply andb_true_iff in E. destruct E as [E E4].
+  apply andb_true_iff in E. destruct E as [E E3].
+  apply andb_true_iff in E. destruct E as [E1 E2].
+  apply Z.eqb_eq in E1. apply option_eqb_Z_eq in E2. apply Z.eqb_eq in E3. apply eqb_prop in E4.
+  congruence.
+Qed.
+
+Lemma atom_core_eqb_refl a : atom_core_eqb a a = true.
+Proof. unfold atom_core_eqb. rewrite !Z.eqb_refl, option_eqb_Z_refl, eqb_reflx. reflexivity. Qed.
+
+Lemma atom_core_eqb_sym a b : atom_core_eqb a b = true -> atom_core_eqb b a = true.
+Proof.
+  intros E. apply atom_core_eqb_eq in E. unfold core4 in E. injection E as E1 E2 E3 E4.
+  unfold atom_core_eqb. rewrite E1, E2, E3, E4. apply atom_core_eqb_refl.
+Qed.
+
+Lemma kr_atoms_core g g' : kr_atoms g g' = true -> core_of g = core_of g'.
+Proof.
+  unfold kr_atoms, core_of. apply forallb2_map. intros x y E.
+  apply andb_true_iff in E. destruct E as [E _]. apply andb_true_iff in E. destruct E as [E1 E2].
+  apply Z.eqb_eq in E1. apply atom_core_eqb_eq in E2. unfold core4 in E2. injection E2 as A1 A2 A3 A4.
+  rewrite E1, A1, A2, A3, A4. reflexivity.
+Qed.
+
+Lemma kr_atoms_stereo g g' : kr_atoms g g' = true ->
+  map (fun x => a_stereo (snd x)) (m_atoms g) = map (fun x => a_stereo (snd x)) (m_atoms g').
+Proof.
+  unfold kr_atoms. apply forallb2_map. intros x y E.
+  apply andb_true_iff in E. destruct E as [_ E]. apply option_eqb_bool_eq in E. exact E.
+Qed.
+
+Lemma core_ids g g' : core_of g = core_of g' -> ids g = ids g'.
+Proof.
+  unfold core_of, ids, keys. intros E.
+  apply (f_equal (map fst)) in E. rewrite !map_map in E. simpl in E. exact E.
+Qed.
+
+Lemma core_total_charge g g' : core_of g = core_of g' -> total_charge g = total_charge g'.
+Proof.
+  unfold core_of, total_charge. intros E.
+  apply (map_fold_sum (fun x => a_chg (snd x)) (fun x => a_chg (snd x))).
+  apply (f_equal (map (fun c : Z * (Z * option Z * Z * bool) => snd (fst (snd c))))) in E.
+  rewrite !map_map in E. simpl in E. exact E.
+Qed.
+
+Lemma core_radical_count g g' : core_of g = core_of g' -> radical_count g = radical_count g'.
+Proof.
+  unfold core_of, radical_count. intros E. apply map_countb.
+  apply (f_equal (map (fun c : Z * (Z * option Z * Z * bool) => snd (snd c)))) in E.
+  rewrite !map_map in E. simpl in E. exact E.
+Qed.
+
+Lemma core_element_count g g' z : core_of g = core_of g' -> element_count z g = element_count z g'.
+Proof.
+  unfold core_of, element_count. intros E. apply map_countb.
+  apply (f_equal (map (fun c : Z * (Z * option Z * Z * bool) => fst (fst (fst (snd c))) =? z))) in E.
+  rewrite !map_map in E. simpl in E. exact E.
+Qed.
+
+Lemma nbl_step_keys l l' : nbl_step l l' = true -> keys l = keys l'.
+Proof.
+  unfold nbl_step, keys. apply forallb2_map. intros p q E.
+  apply andb_true_iff in E. destruct E as [E _]. apply Z.eqb_eq in E. exact E.
+Qed.
+
+Lemma kr_bonds_graph g g' : kr_bonds g g' = true -> graph_of g = graph_of g'.
+Proof.
+  unfold kr_bonds, graph_of. apply forallb2_map. intros x y E.
+  apply andb_true_iff in E. destruct E as [E1 E2]. apply Z.eqb_eq in E1. apply nbl_step_keys in E2.
+  rewrite E1, E2. reflexivity.
+Qed.
+
+Lemma core_split g g' : kekule_rel_core g g' = true -> kr_atoms g g' = true /\ kr_bonds g g' = true /\ kr_classes g g' = true.
+Proof.
+  unfold kekule_rel_core. intros E. apply andb_true_iff in E. destruct E as [E E3].
+  apply andb_true_iff in E. destruct E as [E1 E2]. auto.
+Qed.
+
+(* same atoms with the same element / isotope / charge / radical state / stereo label, same skeleton with the same neighbour
+   order, hence the same heavy-atom formula, total charge and number of radical centres *)
+Theorem kekule_rel_preserves : forall g g', kekule_rel_core g g' = true ->
+  ids g = ids g' /\ core_of g = core_of g' /\ graph_of g = graph_of g' /\
+  map (fun x => a_stereo (snd x)) (m_atoms g) = map (fun x => a_stereo (snd x)) (m_atoms g') /\
+  total_charge g = total_charge g' /\ radical_count g = radical_count g' /\
+  (forall z, element_count z g = element_count z g').
+Proof.
+  intros g g' E. apply core_split in E. destruct E as [Ea [Eb _]].
+  pose proof (kr_atoms_core _ _ Ea) as C.
+  repeat split.
+  - apply core_ids, C.
+  - exact C.
+  - apply kr_bonds_graph, Eb.
+  - apply kr_atoms_stereo, Ea.
+  - apply core_total_charge, C.
+  - apply core_radical_count, C.
+  - intros z. apply core_element_count, C.
+Qed.
+
+(* hydrogens: a count that was known is kept, atom by atom; when all were known the total (hence the formula) is kept *)
+Lemma h_kept_lookup : forall (l l' : list (Z * atom)),
+  forallb2 (fun x y => (fst x =? fst y) && h_kept (snd x) (snd y)) l l' = true ->
+  forall n a h, zget l n = Some a -> a_h a = Some h -> exists a', zget l' n = Some a' /\ a_h a' = Some h.
+Proof.
+  intros l. induction l as [|[k a0] r IH]; intros [|[k' b0] s] E n a h Hg Hh; simpl in *; try discriminate.
+  apply andb_true_iff in E. destruct E as [E1 E2]. apply andb_true_iff in E1. destruct E1 as [Ek Eh].
+  apply Z.eqb_eq in Ek. subst k'. destruct (n =? k) eqn:Enk.
+  - injection Hg as Hg. subst a0. exists b0. split; auto.
+    unfold h_kept in Eh. rewrite Hh in Eh. apply option_eqb_Z_eq in Eh. exact Eh.
+  - eapply IH; eauto.
+Qed.
+
+Lemma kr_keys_h g g' : kr_atoms g g' = true -> kr_h g g' = true ->
+  forallb2 (fun x y => (fst x =? fst y) && h_kept (snd x) (snd y)) (m_atoms g) (m_atoms g') = true.
+Proof.
+  unfold kr_atoms, kr_h. intros A H.
+  pose proof (forallb2_and _ _ _ _ A H) as AH. revert AH. apply forallb2_weaken.
+  intros x y E. apply andb_true_iff in E. destruct E as [E1 E2].
+  apply andb_true_iff in E1. destruct E1 as [E1 _]. apply andb_true_iff in E1. destruct E1 as [E1 _].
+  rewrite E1, E2. reflexivity.
+Qed.
+
+Lemma all_known_h_map : forall (l l' : list (Z * atom)),
+  forallb (fun x => h_known (snd x)) l = true ->
+  forallb2 (fun x y => h_kept (snd x) (snd y)) l l' = true ->
+  map (fun x => a_h (snd x)) l = map (fun x => a_h (snd x)) l'.
+Proof.
+  intros l. induction l as [|x r IH]; intros [|y s] K E; simpl in *; try discriminate; auto.
+  apply andb_true_iff in E. apply andb_true_iff in K. destruct E as [E1 E2], K as [K1 K2].
+  f_equal; [|apply IH; auto].
+  unfold h_known in K1. unfold h_kept in E1. destruct (a_h (snd x)); try discriminate.
+  apply option_eqb_Z_eq in E1. symmetry. exact E1.
+Qed.
+
+Theorem kekule_rel_hydrogens : forall g g', kekule_rel_core g g' = true -> kr_h g g' = true ->
+  (forall n a h, atom_of g n = Some a -> a_h a = Some h -> exists a', atom_of g' n = Some a' /\ a_h a' = Some h) /\
+  (all_h_known g = true -> total_h g = total_h g' /\ all_h_known g' = true).
+Proof.
+  intros g g' E H. apply core_split in E. destruct E as [Ea _]. split.
+  - unfold atom_of. apply h_kept_lookup. apply kr_keys_h; assumption.
+  - intros K. unfold all_h_known in K. unfold kr_h in H.
+    pose proof (all_known_h_map _ _ K H) as M. split.
+    + unfold total_h.
+      apply (map_fold_sum (fun x => match a_h (snd x) with Some h => h | None => 0 end)
+                          (fun x => match a_h (snd x) with Some h => h | None => 0 end)).
+      apply (f_equal (map (fun o : option Z => match o with Some h => h | None => 0 end))) in M.
+      rewrite !map_map in M. exact M.
+    + unfold all_h_known.
+      assert (Q : map (fun x : Z * atom => h_known (snd x)) (m_atoms g) = map (fun x : Z * atom => h_known (snd x)) (m_atoms g')).
+      { apply (f_equal (map (fun o : option Z => match o with Some _ => true | None => false end))) in M.
+        rewrite !map_map in M. exact M. }
+      clear - K Q. revert Q K. generalize (m_atoms g') as l'. generalize (m_atoms g) as l.
+      induction l as [|x r IH]; intros [|y s] Q K; simpl in *; try discriminate; auto.
+      injection Q as Q1 Q2. apply andb_true_iff in K. destruct K as [K1 K2].
+      rewrite <- Q1, K1. simpl. apply (IH _ Q2 K2).
+Qed.
+
+(* ------------------------------------------------------------------------------------------------
+   2. an accepted Kekule form has no aromatic bond, known hydrogens on the former ring atoms,
+      at most one new double bond per atom
+   ------------------------------------------------------------------------------------------------ *)
+Lemma bond_step_not4 b b' : bond_step b b' = true -> (b_ord b' =? 4) = false.
+Proof.
+  unfold bond_step. intros E. apply andb_true_iff in E. destruct E as [_ E].
+  destruct (b_ord b =? 4) eqn:E4.
+  - apply orb_true_iff in E. destruct E as [E|E]; apply Z.eqb_eq in E; rewrite E; reflexivity.
+  - apply Z.eqb_eq in E. rewrite E. exact E4.
+Qed.
+
+Lemma nbl_step_no4 l l' : nbl_step l l' = true -> arom_deg l' = 0.
+Proof.
+  intros E. unfold arom_deg. apply countb_zero. revert E. unfold nbl_step. apply forallb2_forallb_r.
+  intros p q E. apply andb_true_iff in E. destruct E as [_ E]. apply bond_step_not4 in E.
+  unfold ord_is. rewrite E. reflexivity.
+Qed.
+
+Lemma kr_bonds_no_arom g g' : kr_bonds g g' = true -> no_arom g' = true.
+Proof.
+  unfold kr_bonds, no_arom. apply forallb2_forallb_r. intros x y E.
+  apply andb_true_iff in E. destruct E as [_ E]. apply nbl_step_no4 in E. rewrite E. reflexivity.
+Qed.
+
+Lemma moved_le_count o o' : forall l l', 0 <= moved o o' l l' <= countb (ord_is o) l.
+Proof.
+  intros l. induction l as [|x r IH]; intros [|y s]; simpl.
+  - lia.
+  - lia.
+  - pose proof (countb_nonneg (ord_is o) r). destruct (ord_is o x); lia.
+  - specialize (IH s). destruct (ord_is o x); simpl; [destruct (ord_is o' y)|]; lia.
+Qed.
+
+Lemma dbl_ok_le1 c nd : dbl_ok c nd = true -> 0 <= nd <= 1.
+Proof.
+  unfold dbl_ok. destruct (dclass_of c); intros E.
+  - apply Z.eqb_eq in E. lia.
+  - apply Z.eqb_eq in E. lia.
+  - apply orb_true_iff in E. destruct E as [E|E]; apply Z.eqb_eq in E; lia.
+Qed.
+
+Lemma kr_classes_le1 g g' : kr_classes g g' = true ->
+  forallb2 (fun x y => new_doubles (snd x) (snd y) <=? 1) (m_adj g) (m_adj g') = true.
+Proof.
+  unfold kr_classes. apply forallb2_weaken. intros x y E. apply Z.leb_le.
+  destruct (arom_deg (snd x) =? 0) eqn:E0.
+  - apply Z.eqb_eq in E0. unfold new_doubles, arom_deg in *.
+    pose proof (moved_le_count 4 2 (snd x) (snd y)). lia.
+  - destruct (atom_class g (fst x) (snd x)); try discriminate. apply dbl_ok_le1 in E. lia.
+Qed.
+
+Theorem kekule_rel_valid : forall g g', kekule_rel_core g g' = true ->
+  no_arom g' = true /\
+  forallb2 (fun x y => new_doubles (snd x) (snd y) <=? 1) (m_adj g) (m_adj g') = true /\
+  (kr_valence g g' = true ->
+   forall n l, In (n, l) (m_adj g) -> arom_deg l <> 0 -> exists a', atom_of g' n = Some a' /\ h_known a' = true).
+Proof.
+  intros g g' E. apply core_split in E. destruct E as [_ [Eb Ec]]. repeat split.
+  - apply kr_bonds_no_arom with g. exact Eb.
+  - apply kr_classes_le1. exact Ec.
+  - unfold kr_valence. intros V n l I D. rewrite forallb_forall in V. specialize (V _ I). simpl in V.
+    destruct (arom_deg l =? 0) eqn:E0; [apply Z.eqb_eq in E0; contradiction|].
+    destruct (atom_of g' n) as [a'|]; try discriminate. exists a'. auto.
+Qed.
+
+(* ------------------------------------------------------------------------------------------------
+   3. idempotence: nothing can be done to a molecule without aromatic bonds
+   ------------------------------------------------------------------------------------------------ *)
+Lemma no_arom_nbl l : arom_deg l = 0 -> forallb (fun p => negb (ord_is 4 p)) l = true.
+Proof. unfold arom_deg. apply countb_zero. Qed.
+
+Lemma no_arom_adj g : no_arom g = true -> forallb (fun x => forallb (fun p => negb (ord_is 4 p)) (snd x)) (m_adj g) = true.
+Proof.
+  unfold no_arom. intros H. rewrite forallb_forall in *. intros x I. specialize (H x I).
+  apply Z.eqb_eq in H. apply no_arom_nbl. exact H.
+Qed.
+
+(* spec level: every accepted "Kekule form" of a molecule without aromatic bonds has exactly the same bond orders *)
+Theorem kekule_rel_noarom_same : forall g g', no_arom g = true -> kekule_rel_core g g' = true -> same_orders g g' = true.
+Proof.
+  intros g g' N E. apply core_split in E. destruct E as [_ [Eb _]].
+  apply no_arom_adj in N. unfold kr_bonds in Eb. unfold same_orders.
+  revert Eb. apply forallb2_with_forallb with (p := fun x => forallb (fun p => negb (ord_is 4 p)) (snd x)); [|exact N].
+  intros x y P E. apply andb_true_iff in E. destruct E as [E1 E2]. rewrite E1. simpl.
+  revert E2. unfold nbl_step. apply forallb2_with_forallb with (p := fun p => negb (ord_is 4 p)); [|exact P].
+  intros p q P4 E. apply andb_true_iff in E. destruct E as [Ek Es]. rewrite Ek. simpl.
+  unfold bond_step in Es. apply andb_true_iff in Es. destruct Es as [_ Es].
+  unfold ord_is in P4. destruct (b_ord (snd p) =? 4); [discriminate|].
+  rewrite Z.eqb_sym. exact Es.
+Qed.
+
+Lemma h_kept_refl a : h_kept a a = true.
+Proof. unfold h_kept. destruct (a_h a) eqn:E; auto. simpl. apply Z.eqb_refl. Qed.
+
+(* ... and the molecule itself is accepted: the relation is reflexive exactly there *)
+Theorem kekule_rel_refl : forall g, no_arom g = true -> kekule_rel g g = true.
+Proof.
+  intros g N. unfold kekule_rel, kekule_rel_noh, kekule_rel_core.
+  assert (A : kr_atoms g g = true).
+  { unfold kr_atoms. apply forallb2_refl with (p := fun _ => true); [|apply forallb_true].
+    intros x _. rewrite Z.eqb_refl, atom_core_eqb_refl, option_eqb_bool_refl. reflexivity. }
+  assert (B : kr_bonds g g = true).
+  { unfold kr_bonds. apply forallb2_refl with (p := fun x => forallb (fun p => negb (ord_is 4 p)) (snd x)); [|apply no_arom_adj, N].
+    intros x P. rewrite Z.eqb_refl. simpl. unfold nbl_step.
+    apply forallb2_refl with (p := fun p => negb (ord_is 4 p)); [|exact P].
+    intros p P4. rewrite Z.eqb_refl. simpl. unfold bond_step. rewrite option_eqb_bool_refl. simpl.
+    unfold ord_is in P4. destruct (b_ord (snd p) =? 4); [discriminate|]. apply Z.eqb_refl. }
+  assert (C : kr_classes g g = true).
+  { unfold kr_classes. unfold no_arom in N. apply forallb2_refl with (p := fun x => arom_deg (snd x) =? 0); [|exact N].
+    intros x P. rewrite P. reflexivity. }
+  assert (V : kr_valence g g = true).
+  { unfold kr_valence. unfold no_arom in N. rewrite forallb_forall in *. intros x I. rewrite (N x I). reflexivity. }
+  assert (H : kr_h g g = true).
+  { unfold kr_h. apply forallb2_refl with (p := fun _ => true); [|apply forallb_true]. intros x _. apply h_kept_refl. }
+  rewrite A, B, C, V, H. reflexivity.
+Qed.
+
+(* algorithm level: the driver model returns a molecule without aromatic bonds unchanged and reports "nothing found",
+   whatever the ring set, the search and the hydrogen oracle are *)
+Lemma filter_nil_countb {A : Type} (f : A -> bool) (l : list A) : countb f l = 0 -> filter f l = [].
+Proof.
+  intros H. apply countb_zero in H. induction l as [|x r IH]; simpl in *; auto.
+  apply andb_true_iff in H. destruct H as [H1 H2]. destruct (f x); [discriminate|]. auto.
+Qed.
+
+Lemma scan_ord4_nil g : no_arom g = true -> scan_ord g 4 = [].
+Proof.
+  unfold no_arom, scan_ord. induction (m_adj g) as [|x r IH]; simpl; auto.
+  intros H. apply andb_true_iff in H. destruct H as [H1 H2]. apply Z.eqb_eq in H1.
+  unfold arom_deg in H1. rewrite (filter_nil_countb _ _ H1). simpl. auto.
+Qed.
+
 Lemma prepare_rings_no_arom g sssr : scan_ord g 4 = [] -> prepare_rings g sssr = Ok (mkPrep [] [] [] []).
 Proof. intros H. unfold prepare_rings. rewrite H. reflexivity. Qed.
+
+Theorem kekule_noop : forall g sssr search calc, no_arom g = true -> kekule_driver g sssr search calc = Ok (g, false).
+Proof.
+  intros g sssr search calc N. unfold kekule_driver.
+  rewrite (prepare_rings_no_arom g sssr (scan_ord4_nil g N)). simpl. destruct g; reflexivity.
+Qed.
+
+(* ------------------------------------------------------------------------------------------------
+   4. whatever the heuristic search returns, the driver cannot change atoms, charges, radicals or connectivity
+   ------------------------------------------------------------------------------------------------ *)
+Lemma keys_set_ord_nbl l m o : keys (set_ord_nbl l m o) = keys l.
+Proof.
+  unfold keys, set_ord_nbl. rewrite map_map. apply map_ext. intros mb. destruct (fst mb =? m); reflexivity.
+Qed.
+
+Lemma set_order_core g n m o : core_of (set_order g n m o) = core_of g.
+Proof. reflexivity. Qed.
+
+Lemma set_order_graph g n m o : graph_of (set_order g n m o) = graph_of g.
+Proof.
+  unfold graph_of, set_order. simpl. rewrite map_map. apply map_ext. intros nl.
+  destruct (fst nl =? n); [|destruct (fst nl =? m)]; simpl; try rewrite keys_set_ord_nbl; reflexivity.
+Qed.
+
+Lemma apply_form_core form : forall g, core_of (apply_form g form) = core_of g /\ graph_of (apply_form g form) = graph_of g.
+Proof.
+  unfold apply_form. induction form as [|[[n m] o] r IH]; intros g; simpl; auto.
+  destruct (IH (set_order g n m o)) as [A B]. rewrite A, B, set_order_graph. split; reflexivity.
+Qed.
+
+Lemma set_h_core g n h : core_of (set_h g n h) = core_of g /\ graph_of (set_h g n h) = graph_of g.
+Proof.
+  split; [|reflexivity]. unfold core_of, set_h. simpl. rewrite map_map. apply map_ext. intros na.
+  destruct (fst na =? n); reflexivity.
+Qed.
+
+Lemma set_h_loop_core (calc : mol -> Z -> option Z) ns : forall g,
+  core_of (fold_left (fun gg n => set_h gg n (calc gg n)) ns g) = core_of g /\
+  graph_of (fold_left (fun gg n => set_h gg n (calc gg n)) ns g) = graph_of g.
+Proof.
+  induction ns as [|n r IH]; intros g; simpl; auto.
+  destruct (IH (set_h g n (calc g n))) as [A B]. destruct (set_h_core g n (calc g n)) as [C D].
+  rewrite A, B, C, D. split; reflexivity.
+Qed.
+
+Theorem kekule_driver_preserves : forall g sssr search calc g' r,
+  kekule_driver g sssr search calc = Ok (g', r) ->
+  ids g' = ids g /\ core_of g' = core_of g /\ graph_of g' = graph_of g /\
+  total_charge g' = total_charge g /\ radical_count g' = radical_count g /\ (forall z, element_count z g' = element_count z g).
+Proof.
+  intros g sssr search calc g' r E.
+  assert (CG : core_of g' = core_of g /\ graph_of g' = graph_of g).
+  { unfold kekule_driver in E. destruct (prepare_rings g sssr) as [p|]; [|discriminate].
+    pose proof (apply_form_core (map (fun nm => (fst nm, snd nm, 1)) (r_singled p)) g) as P1.
+    destruct (r_rings p).
+    - injection E as E _. subst g'. exact P1.
+    - destruct (search _ _ _) as [[[|x form]|]|]; try discriminate.
+      + injection E as E _. subst g'. exact P1.
+      + injection E as E _. subst g'.
+        destruct (set_h_loop_core calc (form_atoms (x :: form))
+                    (apply_form (apply_form g (map (fun nm => (fst nm, snd nm, 1)) (r_singled p))) (x :: form))) as [A B].
+        destruct (apply_form_core (x :: form) (apply_form g (map (fun nm => (fst nm, snd nm, 1)) (r_singled p)))) as [C D].
+        destruct P1 as [P1 P2]. rewrite A, B, C, D, P1, P2. split; reflexivity.
+      + injection E as E _. subst g'. exact P1. }
+  destruct CG as [C G]. repeat split; auto.
+  - apply core_ids, C.
+  - apply core_total_charge, C.
+  - apply core_radical_count, C.
+  - intros z. apply core_element_count, C.
+Qed.
+
+(* ------------------------------------------------------------------------------------------------
+   5. thiele_rel preserves the molecule; an accepted Kekule step is undone by an accepted Thiele step
+   ------------------------------------------------------------------------------------------------ *)
+Lemma tr_atoms_core g g' : tr_atoms g g' = true -> core_of g = core_of g'.
+Proof.
+  unfold tr_atoms, core_of. apply forallb2_map. intros x y E.
+  apply andb_true_iff in E. destruct E as [E _]. apply andb_true_iff in E. destruct E as [E1 E2].
+  apply Z.eqb_eq in E1. apply atom_core_eqb_eq in E2. unfold core4 in E2. injection E2 as A1 A2 A3 A4.
+  rewrite E1, A1, A2, A3, A4. reflexivity.
+Qed.
+
+Lemma tr_bonds_graph g g' : tr_bonds g g' = true -> graph_of g = graph_of g'.
+Proof.
+  unfold tr_bonds, graph_of. apply forallb2_map. intros x y E.
+  apply andb_true_iff in E. destruct E as [E1 E2]. apply Z.eqb_eq in E1.
+  assert (K : keys (snd x) = keys (snd y)).
+  { revert E2. unfold th_nbl_step, keys. apply forallb2_map. intros p q E.
+    apply andb_true_iff in E. destruct E as [E _]. apply Z.eqb_eq in E. exact E. }
+  rewrite E1, K. reflexivity.
+Qed.
+
+Theorem thiele_rel_preserves : forall g g', thiele_rel_noh g g' = true ->
+  ids g = ids g' /\ core_of g = core_of g' /\ graph_of g = graph_of g' /\
+  total_charge g = total_charge g' /\ radical_count g = radical_count g' /\
+  (forall z, element_count z g = element_count z g') /\
+  (tr_h g g' = true -> map (fun x => a_h (snd x)) (m_atoms g) = map (fun x => a_h (snd x)) (m_atoms g')).
+Proof.
+  intros g g' E. unfold thiele_rel_noh in E. apply andb_true_iff in E. destruct E as [E _].
+  apply andb_true_iff in E. destruct E as [Ea Eb].
+  pose proof (tr_atoms_core _ _ Ea) as C. repeat split.
+  - apply core_ids, C.
+  - exact C.
+  - apply tr_bonds_graph, Eb.
+  - apply core_total_charge, C.
+  - apply core_radical_count, C.
+  - intros z. apply core_element_count, C.
+  - unfold tr_h. apply forallb2_map. intros x y H. apply option_eqb_Z_eq in H. exact H.
+Qed.
+
+Lemma stereo_kept_refl s : stereo_kept_or_dropped s s = true.
+Proof. destruct s; simpl; auto. apply eqb_reflx. Qed.
+
+Lemma moved_swap o o' : forall l l', moved o o' l l' = moved o' o l' l.
+Proof.
+  intros l. induction l as [|x r IH]; intros [|y s]; simpl; auto.
+  rewrite (IH s), andb_comm. reflexivity.
+Qed.
+
+Theorem kekule_thiele_inverse : forall g k, kekule_rel_core g k = true -> thiele_rel_noh k g = true.
+Proof.
+  intros g k E. pose proof (kekule_rel_valid _ _ E) as [_ [L _]].
+  apply core_split in E. destruct E as [Ea [Eb _]].
+  unfold thiele_rel_noh. apply andb_true_iff. split; [apply andb_true_iff; split|].
+  - revert Ea. unfold kr_atoms, tr_atoms. apply forallb2_swap. intros x y E.
+    apply andb_true_iff in E. destruct E as [E E3]. apply andb_true_iff in E. destruct E as [E1 E2].
+    apply Z.eqb_eq in E1. apply option_eqb_bool_eq in E3.
+    rewrite E1, Z.eqb_refl, (atom_core_eqb_sym _ _ E2), E3, stereo_kept_refl. reflexivity.
+  - revert Eb. unfold kr_bonds, tr_bonds. apply forallb2_swap. intros x y E.
+    apply andb_true_iff in E. destruct E as [E1 E2]. apply Z.eqb_eq in E1. rewrite E1, Z.eqb_refl. simpl.
+    revert E2. unfold nbl_step, th_nbl_step. apply forallb2_swap. intros p q E.
+    apply andb_true_iff in E. destruct E as [Ek Es]. apply Z.eqb_eq in Ek. rewrite Ek, Z.eqb_refl. simpl.
+    unfold bond_step in Es. unfold th_bond_step. apply andb_true_iff in Es. destruct Es as [S O].
+    apply option_eqb_bool_eq in S. rewrite S, stereo_kept_refl. simpl.
+    destruct (b_ord (snd p) =? 4) eqn:E4.
+    + rewrite O. simpl. apply orb_true_r.
+    + apply Z.eqb_eq in O. rewrite O, Z.eqb_refl. reflexivity.
+  - revert L. unfold tr_doubles. apply forallb2_swap. intros x y E.
+    unfold old_doubles. unfold new_doubles in E. rewrite moved_swap. exact E.
+Qed.
